@@ -279,6 +279,15 @@ theorem isStale_of_forced (F : PFrag env s) {x : Nat} (hx : x < s.nodes.size)
   simp only [forced, xRec_some he] at h
   exact isStale_of_forceStale hk (F.valid x hx) he h
 
+/-- an expert node whose virtual stamp is `-1` (flagged stale, or never computed) is stale -/
+theorem isStale_of_vstamp (F : PFrag env s) {x e : Nat} (hx : x < s.nodes.size) (hk : (s.nodeD x).kind = .expert e)
+    (h : ((V s).nodeD x).recomputedAt = -1) : s.isStale x = true := by
+  rcases (V_stamp_iff s x).1 h with h | h
+  · exact isStale_of_forced F hx h
+  · unfold State.isStale Node.kind?
+    simp only [F.valid x hx, if_true, hk, h]
+    simp
+
 /-- **part A**: the rewiring-with-creation step of the virtual states -/
 theorem lc_stepP (B : LcBase env s n op pr eres) (E : LE env s n op pr eres m s2) :
     StepP (penv env) (LcX s s2 op eres pr m) n (V s) (unstamp n (s.nodeD n).recomputedAt (V s2)) ∧
@@ -314,14 +323,15 @@ theorem lc_stepP (B : LcBase env s n op pr eres) (E : LE env s n op pr eres m s2
   have h0 : 0 ≤ s.stabNum := I.stamps.now
   -- a rewired node
   have hrew : ∀ x, LcX s s2 op eres pr m x → x ≠ n ∧ x < s.nodes.size ∧ n ∈ s.children x ∧
-      forced s2.experts (s2.nodeD x).kind = true := by
+      (∃ e, (s2.nodeD x).kind = .expert e) ∧ ((V s2).nodeD x).recomputedAt = -1 := by
     rintro x (⟨rfl, hnc⟩ | ⟨key, d, hm, hl⟩)
     · have hlt : pr.result < s.nodes.size := by have := hN.lt; omega
-      refine ⟨by omega, hlt, ?_, E.resAlt.resolve_left hnc⟩
+      refine ⟨by omega, hlt, ?_, ⟨eres, by rw [(lf_old E.lf hlt).1]; exact B.hres⟩,
+        (V_stamp_iff s2 _).2 (Or.inl (E.resAlt.resolve_left hnc))⟩
       rw [children_expert (F.valid _ hlt) B.hres he0, hch0]
       simp
     · obtain ⟨hplt, hpn, -, ep, erp, dd, h1, h2, -, -, -, h6⟩ := B.entry hm
-      refine ⟨hpn, hplt, ?_, E.forcedU key x d hm hl⟩
+      refine ⟨hpn, hplt, ?_, ⟨ep, by rw [(lf_old E.lf hplt).1]; exact h1⟩, E.forcedU key x d hm hl⟩
       rw [children_expert (F.valid _ hplt) h1 h2, h6]
       simp
   have W : StepP (penv env) (LcX s s2 op eres pr m) n (V s) (unstamp n (s.nodeD n).recomputedAt (V s2)) := {
@@ -377,12 +387,12 @@ theorem lc_stepP (B : LcBase env s n op pr eres) (E : LE env s n op pr eres m s2
       · rw [unstamp_other _ _ _ hxn, V_nodeD, vNode_recomputedAt, vNode_recomputedAt, k1, hf, k10, if_neg hxn]
     rewired := by
       intro x hx
-      obtain ⟨hxn, hxlt, hch, hf⟩ := hrew x hx
+      obtain ⟨hxn, hxlt, hch, ⟨ex, hkx⟩, hf⟩ := hrew x hx
       refine ⟨by rw [V_children]; exact hch, ?_, ?_⟩
       · rw [hstale x hxn, V_isStale]
-        exact isStale_of_forced F2 (Nat.lt_of_lt_of_le hxlt hgrow) hf
-      · rw [unstamp_other _ _ _ hxn, V_nodeD, vNode_recomputedAt, hf, V_stabNum]
-        simp only [if_true]; omega
+        exact isStale_of_vstamp F2 (Nat.lt_of_lt_of_le hxlt hgrow) hkx hf
+      · rw [unstamp_other _ _ _ hxn, hf, V_stabNum]
+        omega
     new := by
       intro x h1 h2
       rw [V_size] at h1
